@@ -19,40 +19,149 @@ Qed.
 Lemma is_eol_not_bracket c : is_eol c = true -> (c =? 61) = false /\ (c =? 91) = false.
 Proof. unfold is_eol. intros H. split; lia. Qed.
 
-(* a quoted string is read up to its closing quote, whatever follows *)
-Lemma unescape_ctx q : forall n s v raw rest, (length s <= n)%nat ->
+Lemma unescape_raw_end q : forall n s v raw rest, (length s <= n)%nat ->
+  unescape_until q s = Some (v, raw, rest) -> exists raw', raw = raw' ++ [q].
+Proof.
+  induction n as [|n IH]; intros s v raw rest Hl H.
+  - destruct s; [discriminate | cbn in Hl; lia].
+  - destruct s as [|c r]; [discriminate|]. cbn [unescape_until] in H. cbn [length] in Hl.
+    destruct (c =? q) eqn:Ecq.
+    { apply Z.eqb_eq in Ecq. subst c. injection H as _ <- _. exists []. reflexivity. }
+    break_match H.
+    all: apply ucons_inv in H; destruct H as (v' & raw' & H & _ & ->).
+    all: apply IH in H; [|cbn [length] in *; lia].
+    all: destruct H as (raw'' & ->); eexists; rewrite app_assoc; reflexivity.
+Qed.
+
+(* one unfolding of unescape_until (as in Proofs/MinifyRelex.v) *)
+Lemma unescape_eq q c r :
+  unescape_until q (c :: r) =
+    if c =? q then Some ([], [c], r)
+    else if is_eol c then None
+    else if c =? 92 then
+      match r with
+      | [] => None
+      | e :: r1 =>
+        if is_digit e then
+          match r1 with
+          | e2 :: r2 =>
+            if is_digit e2 then
+              match r2 with
+              | e3 :: r3 =>
+                if is_digit e3 then
+                  let v := (e - 48) * 100 + (e2 - 48) * 10 + (e3 - 48) in
+                  if v <=? 255 then ucons [c; e; e2; e3] v (unescape_until q r3) else None
+                else ucons [c; e; e2] ((e - 48) * 10 + (e2 - 48)) (unescape_until q r2)
+              | [] => ucons [c; e; e2] ((e - 48) * 10 + (e2 - 48)) (unescape_until q r2)
+              end
+            else ucons [c; e] (e - 48) (unescape_until q r1)
+          | [] => ucons [c; e] (e - 48) (unescape_until q r1)
+          end
+        else if e =? 120 then
+          match r1 with
+          | h1 :: h2 :: r3 =>
+            if is_hex h1 && is_hex h2 then ucons [c; e; h1; h2] (digit_val h1 * 16 + digit_val h2) (unescape_until q r3) else None
+          | _ => None
+          end
+        else if e =? 10 then
+          match r1 with
+          | e2 :: r2 => if e2 =? 13 then ucons [c; e; 13] 10 (unescape_until q r2)
+                        else ucons [c; e] 10 (unescape_until q r1)
+          | [] => ucons [c; e] 10 (unescape_until q r1)
+          end
+        else if e =? 13 then
+          match r1 with
+          | e2 :: r2 => if e2 =? 10 then ucons [c; e; 10] 10 (unescape_until q r2)
+                        else ucons [c; e] 10 (unescape_until q r1)
+          | [] => ucons [c; e] 10 (unescape_until q r1)
+          end
+        else
+          match simple_escape e with
+          | Some v => ucons [c; e] v (unescape_until q r1)
+          | None => None
+          end
+      end
+    else ucons [c] c (unescape_until q r).
+Proof. reflexivity. Qed.
+
+Lemma unescape_raw_head q x r v raw rest :
+  unescape_until q (x :: r) = Some (v, raw, rest) -> exists raw', raw = x :: raw'.
+Proof.
+  intros H. pose proof (unescape_split q _ _ _ _ _ (le_n _) H) as Hsp.
+  destruct (unescape_raw_end q _ _ _ _ _ (le_n _) H) as (raw0 & ->).
+  destruct raw0 as [|y raw0]; cbn [app] in Hsp; injection Hsp as -> _; eexists; reflexivity.
+Qed.
+
+(* a quoted string is read up to its closing quote; what follows the quote does not matter *)
+Lemma unescape_tail q : forall n s v raw rest, (length s <= n)%nat ->
+  unescape_until q s = Some (v, raw, rest) ->
+  forall R, unescape_until q (raw ++ R) = Some (v, raw, R).
+Proof.
+  induction n as [|n IH]; intros s v raw rest Hl H R.
+  - destruct s; [discriminate | cbn in Hl; lia].
+  - destruct s as [|c r]; [discriminate|]. cbn [length] in Hl.
+    (* the recursive call, for the text r' that follows the consumed prefix *)
+    assert (IH' : forall pre x r', (length r' <= n)%nat ->
+              ucons pre x (unescape_until q r') = Some (v, raw, rest) ->
+              exists v' raw', v = x :: v' /\ raw = pre ++ raw' /\ unescape_until q r' = Some (v', raw', rest) /\
+                              unescape_until q (raw' ++ R) = Some (v', raw', R)).
+    { intros pre x r' Hr' Hu. apply ucons_inv in Hu. destruct Hu as (v' & raw' & Hu & -> & ->).
+      exists v', raw'. repeat split; try assumption. eapply IH; eassumption. }
+    cbn [unescape_until] in H.
+    destruct (c =? q) eqn:Ecq.
+    { injection H as <- <- <-. cbn [app]. rewrite unescape_eq. cbv beta iota zeta. rewrite Ecq. reflexivity. }
+    destruct (is_eol c) eqn:Eeol; [discriminate|].
+    destruct (c =? 92) eqn:Ebs.
+    2:{ destruct (IH' _ _ r ltac:(lia) H) as (v' & raw' & -> & -> & _ & Hu).
+        cbn [app]. rewrite unescape_eq. cbv beta iota zeta. rewrite Ecq, Eeol, Ebs, Hu. reflexivity. }
+    destruct r as [|e r1]; [discriminate|]. cbn [length] in *.
+    destruct (is_digit e) eqn:Ed1.
+    { destruct r1 as [|e2 r2]; [cbn in H; discriminate|]. cbn [length] in *.
+      destruct (is_digit e2) eqn:Ed2.
+      2:{ destruct (IH' _ _ (e2 :: r2) ltac:(cbn [length]; lia) H) as (v' & raw' & -> & -> & Hu0 & Hu).
+          destruct (unescape_raw_head _ _ _ _ _ _ Hu0) as (raw'' & ->).
+          cbn [app]. rewrite unescape_eq. cbv beta iota zeta. rewrite Ecq, Eeol, Ebs, Ed1, Ed2. cbn [app] in Hu. rewrite Hu. reflexivity. }
+      destruct r2 as [|e3 r3]; [cbn in H; discriminate|]. cbn [length] in *.
+      destruct (is_digit e3) eqn:Ed3.
+      2:{ destruct (IH' _ _ (e3 :: r3) ltac:(cbn [length]; lia) H) as (v' & raw' & -> & -> & Hu0 & Hu).
+          destruct (unescape_raw_head _ _ _ _ _ _ Hu0) as (raw'' & ->).
+          cbn [app]. rewrite unescape_eq. cbv beta iota zeta. rewrite Ecq, Eeol, Ebs, Ed1, Ed2, Ed3. cbn [app] in Hu. rewrite Hu. reflexivity. }
+      destruct (_ <=? 255) eqn:Ev; [|discriminate].
+      destruct (IH' _ _ r3 ltac:(lia) H) as (v' & raw' & -> & -> & _ & Hu).
+      cbn [app]. rewrite unescape_eq. cbv beta iota zeta. rewrite Ecq, Eeol, Ebs, Ed1, Ed2, Ed3, Ev, Hu. reflexivity. }
+    destruct (e =? 120) eqn:Ex.
+    { destruct r1 as [|h1 [|h2 r3]]; try discriminate. cbn [length] in *.
+      destruct (is_hex h1 && is_hex h2) eqn:Eh; [|discriminate].
+      destruct (IH' _ _ r3 ltac:(lia) H) as (v' & raw' & -> & -> & _ & Hu).
+      cbn [app]. rewrite unescape_eq. cbv beta iota zeta. rewrite Ecq, Eeol, Ebs, Ed1, Ex, Eh, Hu. reflexivity. }
+    destruct (e =? 10) eqn:E10.
+    { destruct r1 as [|e2 r2]; [cbn in H; discriminate|]. cbn [length] in *.
+      destruct (e2 =? 13) eqn:E13.
+      - destruct (IH' _ _ r2 ltac:(lia) H) as (v' & raw' & -> & -> & _ & Hu).
+        apply Z.eqb_eq in E13. subst e2.
+        cbn [app]. rewrite unescape_eq. cbv beta iota zeta. rewrite Ecq, Eeol, Ebs, Ed1, Ex, E10. cbn [Z.eqb Pos.eqb]. rewrite Hu. reflexivity.
+      - destruct (IH' _ _ (e2 :: r2) ltac:(cbn [length]; lia) H) as (v' & raw' & -> & -> & Hu0 & Hu).
+        destruct (unescape_raw_head _ _ _ _ _ _ Hu0) as (raw'' & ->).
+        cbn [app]. rewrite unescape_eq. cbv beta iota zeta. rewrite Ecq, Eeol, Ebs, Ed1, Ex, E10, E13. cbn [app] in Hu. rewrite Hu. reflexivity. }
+    destruct (e =? 13) eqn:E13.
+    { destruct r1 as [|e2 r2]; [cbn in H; discriminate|]. cbn [length] in *.
+      destruct (e2 =? 10) eqn:E10'.
+      - destruct (IH' _ _ r2 ltac:(lia) H) as (v' & raw' & -> & -> & _ & Hu).
+        apply Z.eqb_eq in E10'. subst e2.
+        cbn [app]. rewrite unescape_eq. cbv beta iota zeta. rewrite Ecq, Eeol, Ebs, Ed1, Ex, E10, E13. cbn [Z.eqb Pos.eqb]. rewrite Hu. reflexivity.
+      - destruct (IH' _ _ (e2 :: r2) ltac:(cbn [length]; lia) H) as (v' & raw' & -> & -> & Hu0 & Hu).
+        destruct (unescape_raw_head _ _ _ _ _ _ Hu0) as (raw'' & ->).
+        cbn [app]. rewrite unescape_eq. cbv beta iota zeta. rewrite Ecq, Eeol, Ebs, Ed1, Ex, E10, E13, E10'. cbn [app] in Hu. rewrite Hu. reflexivity. }
+    destruct (simple_escape e) as [sv|] eqn:Ese; [|discriminate].
+    destruct (IH' _ _ r1 ltac:(lia) H) as (v' & raw' & -> & -> & _ & Hu).
+    cbn [app]. rewrite unescape_eq. cbv beta iota zeta. rewrite Ecq, Eeol, Ebs, Ed1, Ex, E10, E13, Ese, Hu. reflexivity.
+Qed.
+
+Lemma unescape_ctx q n s v raw rest : (length s <= n)%nat ->
   unescape_until q s = Some (v, raw, rest) ->
   forall b, unescape_until q (s ++ b) = Some (v, raw, rest ++ b).
 Proof.
-  induction n as [|n IH]; intros s v raw rest Hl H b.
-  - destruct s; [discriminate | cbn in Hl; lia].
-  - destruct s as [|c r]; [discriminate|]. cbn [length] in Hl.
-    assert (IH' : forall pre x r' , (length r' <= n)%nat ->
-              ucons pre x (unescape_until q r') = Some (v, raw, rest) ->
-              ucons pre x (unescape_until q (r' ++ b)) = Some (v, raw, rest ++ b)).
-    { intros pre x r' Hr' Hu. apply ucons_inv in Hu. destruct Hu as (v' & raw' & Hu & -> & ->).
-      rewrite (IH _ _ _ _ Hr' Hu b). reflexivity. }
-    cbn [app]. cbn [unescape_until] in H |- *.
-    destruct (c =? q). { injection H as <- <- <-. reflexivity. }
-    destruct (is_eol c); [discriminate|].
-    destruct (c =? 92); [|apply (IH' _ _ r); [lia | exact H]].
-    destruct r as [|e r1]; [discriminate|]. cbn [app length] in *.
-    destruct (is_digit e).
-    { destruct r1 as [|e2 r2]; [cbn in H; discriminate|]. cbn [app length] in *.
-      destruct (is_digit e2); [|apply (IH' _ _ (e2 :: r2)); [cbn [length]; lia | exact H]].
-      destruct r2 as [|e3 r3]; [cbn in H; discriminate|]. cbn [app length] in *.
-      destruct (is_digit e3); [|apply (IH' _ _ (e3 :: r3)); [cbn [length]; lia | exact H]].
-      destruct (_ <=? 255); [|discriminate]. apply (IH' _ _ r3); [lia | exact H]. }
-    destruct (e =? 120).
-    { destruct r1 as [|h1 [|h2 r3]]; try discriminate. cbn [app length] in *.
-      destruct (is_hex h1 && is_hex h2); [|discriminate]. apply (IH' _ _ r3); [lia | exact H]. }
-    destruct (e =? 10).
-    { destruct r1 as [|e2 r2]; [cbn in H; discriminate|]. cbn [app length] in *.
-      destruct (e2 =? 13); [apply (IH' _ _ r2) | apply (IH' _ _ (e2 :: r2))]; try exact H; cbn [length]; lia. }
-    destruct (e =? 13).
-    { destruct r1 as [|e2 r2]; [cbn in H; discriminate|]. cbn [app length] in *.
-      destruct (e2 =? 10); [apply (IH' _ _ r2) | apply (IH' _ _ (e2 :: r2))]; try exact H; cbn [length]; lia. }
-    destruct (simple_escape e); [|discriminate]. apply (IH' _ _ r1); [lia | exact H].
+  intros Hl H b. rewrite (unescape_split q _ _ _ _ _ Hl H), <- app_assoc. eapply unescape_tail; eassumption.
 Qed.
 
 (* the byte at which a numeral's run stops is not a numeral byte *)
@@ -138,16 +247,16 @@ Lemma colons_eq r2 :
 Proof. reflexivity. Qed.
 
 (* ---------- a token that does not reach the end of the text is read the same way whatever follows ---------- *)
-Lemma symbol_local s t c r0 b :
+Lemma symbol_ctx s t c r0 R :
   spec_step s = Some (t, c :: r0) -> spec_symbol s = Some (t, c :: r0) ->
-  spec_step (s ++ b) = Some (t, (c :: r0) ++ b).
+  spec_step (s_raw t ++ c :: R) = Some (t, c :: R).
 Proof.
-  intros H Hs. destruct (spec_symbol_inv _ _ _ Hs) as (x & Hin & -> & ->).
-  rewrite <- app_assoc.
-  (* no longer symbol at the head of the extended text *)
-  assert (Hmax : forall y, In y spec_symbols -> starts_with y (x ++ (c :: r0) ++ b) = true ->
-                           (length y <= length x)%nat).
-  { intros y Hy Hsw. unfold spec_symbol in Hs.
+  intros H Hs. destruct (spec_symbol_inv _ _ _ Hs) as (x & Hin & -> & ->). cbn [s_raw mk].
+  assert (Hx : x <> []).
+  { intros ->. unfold spec_symbols, bs_ in Hin. cbn in Hin. repeat (destruct Hin as [Hin|Hin]; [discriminate|]). exact Hin. }
+  (* x is the longest symbol at the head of the source text *)
+  assert (Hlong : forall y, In y spec_symbols -> starts_with y (x ++ c :: r0) = true -> (length y <= length x)%nat).
+  { unfold spec_symbol in Hs.
     destruct (longest_match spec_symbols (x ++ c :: r0)) as [x'|] eqn:E; [|discriminate].
     destruct (lm_some _ _ _ E) as (Hx' & Hx's & Hx'max).
     assert (x' = x).
@@ -156,18 +265,23 @@ Proof.
       assert (Et : mk SSymbol x' x' = mk SSymbol x x)
         by (destruct (hd61 r); [destruct (mem_bytes x' later_compound_bases); [discriminate|]|]; congruence).
       apply (f_equal s_raw) in Et. exact Et. }
-    subst x'. rewrite app_assoc in Hsw.
-    destruct (Nat.le_gt_cases (length y) (length (x ++ c :: r0))) as [Hle|Hgt].
-    - apply Hx'max; [exact Hy|]. eapply starts_with_shorter; eassumption.
-    - exfalso. pose proof (starts_with_longer _ _ _ Hsw ltac:(lia)) as Epre.
-      assert (Hsym : In (x ++ c :: r0) spec_symbols).
-      { rewrite Epre. apply symbol_prefix; [exact Hy|]. split; [|lia].
-        rewrite app_length. cbn [length]. destruct x; [|cbn [length]; lia].
-        exfalso. unfold spec_symbols, bs_ in Hin. cbn in Hin. repeat (destruct Hin as [Hin|Hin]; [discriminate|]). exact Hin. }
-      assert (Hself : starts_with (x ++ c :: r0) (x ++ c :: r0) = true) by (apply starts_with_app; exists []; symmetry; apply app_nil_r).
-      specialize (Hx'max _ Hsym Hself). rewrite app_length in Hx'max. cbn [length] in Hx'max. lia. }
+    subst x'. exact Hx'max. }
+  (* hence also at the head of the new text: a longer symbol would make x ++ [c] a symbol *)
+  assert (Hmax : forall y, In y spec_symbols -> starts_with y (x ++ c :: R) = true -> (length y <= length x)%nat).
+  { intros y Hy Hsw. destruct (Nat.le_gt_cases (length y) (length x)) as [Hle|Hgt]; [exact Hle|]. exfalso.
+    assert (Hpre : x ++ [c] = firstn (length (x ++ [c])) y).
+    { replace (x ++ c :: R) with ((x ++ [c]) ++ R) in Hsw by (rewrite <- app_assoc; reflexivity).
+      apply (starts_with_longer _ _ _ Hsw). rewrite app_length. cbn [length]. lia. }
+    assert (Hsym : In (x ++ [c]) spec_symbols).
+    { destruct (Nat.eq_dec (length (x ++ [c])) (length y)) as [El|Nl].
+      - rewrite Hpre, El, firstn_all. exact Hy.
+      - rewrite Hpre. apply symbol_prefix; [exact Hy|]. rewrite app_length in *. cbn [length] in *.
+        destruct x; [congruence|]. cbn [length] in *. lia. }
+    assert (Hsw' : starts_with (x ++ [c]) (x ++ c :: r0) = true).
+    { apply starts_with_app. exists r0. rewrite <- app_assoc. reflexivity. }
+    specialize (Hlong _ Hsym Hsw'). rewrite app_length in Hlong. cbn [length] in Hlong. lia. }
   (* the later-compound test looks at c only *)
-  assert (Hl : (mem_bytes x later_compound_bases && hd61 ((c :: r0) ++ b)) = false).
+  assert (Hl : (mem_bytes x later_compound_bases && hd61 (c :: R)) = false).
   { unfold spec_symbol in Hs.
     destruct (longest_match spec_symbols (x ++ c :: r0)) as [x'|] eqn:E; [|discriminate].
     destruct (strip_prefix x' (x ++ c :: r0)) as [r|] eqn:Es; [|discriminate].
@@ -176,7 +290,7 @@ Proof.
     - destruct (mem_bytes x' later_compound_bases) eqn:Em; [discriminate|].
       assert (Et : mk SSymbol x' x' = mk SSymbol x x) by congruence. apply (f_equal s_raw) in Et. cbn in Et.
       subst x'. rewrite Em. reflexivity.
-    - assert (Er : r = c :: r0) by congruence. subst r. cbn [hd61] in Eh. cbn [app hd61]. rewrite Eh. apply andb_false_r. }
+    - assert (Er : r = c :: r0) by congruence. subst r. cbn [hd61] in Eh. cbn [hd61]. rewrite Eh. apply andb_false_r. }
   (* the dispatch of spec_step looks at c only *)
   destruct (disp_ok x c) eqn:Ed.
   - rewrite spec_step_sym_dispatch; [|exact Hin | exact Ed]. apply spec_symbol_at; assumption.
@@ -198,76 +312,83 @@ Proof.
       break_match H; injection H as Ht _; discriminate Ht.
 Qed.
 
-
 Lemma not_eol_eol c : negb (is_eol c) = false -> is_eol c = true.
 Proof. destruct (is_eol c); [reflexivity | discriminate]. Qed.
 
-Theorem step_local s t c r0 b :
-  spec_step s = Some (t, c :: r0) -> spec_step (s ++ b) = Some (t, (c :: r0) ++ b).
+(* a token that does not reach the end of the text is read the same way in front of ANY text that
+   starts with the same byte as the text that followed it *)
+Theorem step_ctx s t c r0 R :
+  spec_step s = Some (t, c :: r0) -> spec_step (s_raw t ++ c :: R) = Some (t, c :: R).
 Proof.
   intros H. pose proof (spec_step_shape _ _ _ H) as Sh.
   destruct (spec_step_split _ _ _ H) as (Hsplit & Hne).
   remember (c :: r0) as rest0 eqn:Erest. destruct Sh.
   - (* white space *)
     pose proof (span_all _ _ _ _ H1) as Hall. pose proof (span_stop _ _ _ _ H1) as Hst.
-    pose proof (span_split _ _ _ _ H1) as Hsp. rewrite Hsp, <- app_assoc.
-    apply spec_step_space; [exact Hne | exact Hall |]. subst rest. exact Hst.
+    cbn [s_raw mk]. apply spec_step_space; [exact Hne | exact Hall |]. subst rest. exact Hst.
   - reflexivity.
   - reflexivity.
   - (* block comment *)
     destruct (long_open_spec _ _ _ _ H0) as (k & Hk & ->). assert (k = O) by lia. subst k. cbn [repeat app].
     destruct (long_body_ctx _ _ _ _ _ H1) as (_ & Hr4 & Hctx). subst r4.
-    rewrite dash_eq. cbn [app]. cbn [Z.eqb Pos.eqb]. rewrite long_open_eq. cbn [Z.eqb Pos.eqb].
+    cbn [s_raw mk]. cbn [app]. rewrite dash_eq. cbn [Z.eqb Pos.eqb]. rewrite long_open_eq. cbn [Z.eqb Pos.eqb].
     rewrite <- !app_assoc. rewrite Hctx. reflexivity.
   - (* -- line comment *)
     fold not_eol in H1. pose proof (span_all _ _ _ _ H1) as Hall. pose proof (span_stop _ _ _ _ H1) as Hst.
-    pose proof (span_split _ _ _ _ H1) as Hsp. subst rest. cbn [stops] in Hst.
+    subst rest. cbn [stops] in Hst.
     assert (Heol : is_eol c = true) by (apply not_eol_eol, Hst).
     destruct (is_eol_not_bracket c Heol) as (Hc1 & Hc2).
     cbn [span] in H1. change (not_eol 45) with true in H1. cbv iota in H1.
     destruct (span not_eol r2) as [a' b'] eqn:E. injection H1 as <- ->.
     pose proof (span_split _ _ _ _ E) as Hr2. subst r2.
-    cbn [app]. rewrite <- app_assoc. cbn [app]. rewrite dash_eq.
-    assert (Hn : match a' ++ c :: r0 ++ b with d :: r3 => if d =? 91 then long_open r3 0 else None | [] => None end = None).
+    cbn [s_raw mk app]. rewrite dash_eq.
+    assert (Hn : match a' ++ c :: R with d :: r3 => if d =? 91 then long_open r3 0 else None | [] => None end = None).
     { destruct a' as [|d a'']; cbn [app].
       - replace (c =? 91) with false. reflexivity.
       - destruct (d =? 91) eqn:Ed; [|reflexivity]. apply Z.eqb_eq in Ed. subst d. cbn [app] in H0.
         eapply long_open_none_ctx; eassumption. }
     rewrite Hn. unfold line_comment. fold not_eol.
-    change (45 :: 45 :: a' ++ c :: r0 ++ b) with ((45 :: 45 :: a') ++ c :: r0 ++ b).
-    rewrite (span_ctx not_eol (45 :: 45 :: a') (c :: r0 ++ b) Hall Hst). reflexivity.
+    change (45 :: 45 :: a' ++ c :: R) with ((45 :: 45 :: a') ++ c :: R).
+    rewrite (span_ctx not_eol (45 :: 45 :: a') (c :: R) Hall Hst). reflexivity.
   - (* // line comment *)
     fold not_eol in H0. pose proof (span_all _ _ _ _ H0) as Hall. pose proof (span_stop _ _ _ _ H0) as Hst.
-    pose proof (span_split _ _ _ _ H0) as Hsp. subst rest. cbn [stops] in Hst.
-    rewrite Hsp, <- app_assoc.
+    subst rest. cbn [stops] in Hst.
     destruct a as [|a1 [|a2 a']]; cbn [span] in H0; change (not_eol 47) with true in H0; cbv iota in H0;
       destruct (span not_eol r2) as [a'' b''] in H0; try discriminate H0.
-    injection H0 as <- <- _ _. cbn [app].
-    change (spec_step (47 :: 47 :: a' ++ c :: r0 ++ b)) with (line_comment ((47 :: 47 :: a') ++ c :: r0 ++ b)).
+    injection H0 as <- <- _ _. cbn [s_raw mk app].
+    change (spec_step (47 :: 47 :: a' ++ c :: R)) with (line_comment ((47 :: 47 :: a') ++ c :: R)).
     unfold line_comment. fold not_eol.
-    rewrite (span_ctx not_eol (47 :: 47 :: a') (c :: r0 ++ b) Hall Hst). reflexivity.
+    rewrite (span_ctx not_eol (47 :: 47 :: a') (c :: R) Hall Hst). reflexivity.
   - (* long string *)
-    cbn [s_raw] in Hsplit. rewrite Hsplit, <- app_assoc. eapply long_string_ctx; eassumption.
+    cbn [s_raw]. eapply long_string_ctx; eassumption.
   - (* quoted string *)
-    cbn [app]. pose proof (unescape_ctx q (length r) r v raw rest (le_n _) H1 b) as Hu.
-    destruct H0 as [-> | ->]; unfold spec_step; cbn -[unescape_until app]; rewrite Hu; reflexivity.
+    pose proof (unescape_tail q (length r) r v raw rest (le_n _) H1 (c :: R)) as Hu.
+    cbn [s_raw app]. destruct H0 as [-> | ->]; unfold spec_step; cbn -[unescape_until app]; rewrite Hu; reflexivity.
   - (* number *)
     destruct (spec_number_ctx _ _ _ H1) as (run & Hraw & Hrun & Hs & Hctx). subst rest.
-    rewrite Hs, <- app_assoc. apply Hctx; [|exact H0].
+    rewrite Hraw. apply Hctx; [|exact H0].
     unfold spec_number in H1. destruct (num_run _ _ _) as [run' rs] eqn:En.
     destruct (spec_numeral run') as [[n d]|]; [|discriminate]. injection H1 as _ Hrs. subst rs.
-    cbn [app num_stops]. split; [eapply num_run_stop, En | reflexivity].
+    cbn [num_stops]. split; [eapply num_run_stop, En | reflexivity].
   - (* name / keyword *)
-    destruct (word_shape _ _ _ _ H0 H1) as (Hn & Hs & Hst). rewrite Hs, <- app_assoc.
-    apply spec_step_word; [exact Hn|]. subst rest. exact Hst.
+    destruct (word_shape _ _ _ _ H0 H1) as (Hn & Hs & Hst).
+    assert (Hraw : s_raw (mk (if mem_bytes a spec_keywords then SKeyword else SName) a a) = a) by reflexivity.
+    rewrite Hraw. apply spec_step_word; [exact Hn|]. subst rest. exact Hst.
   - (* label *)
-    pose proof (span_all _ _ _ _ H0) as Hall. pose proof (span_split _ _ _ _ H0) as Hsp. subst r2.
-    cbn [app]. rewrite <- app_assoc. cbn [app].
-    apply (spec_step_label (n0 :: a) (rest ++ b)). cbn [is_name]. rewrite H1. cbn [forallb] in Hall.
+    pose proof (span_all _ _ _ _ H0) as Hall.
+    cbn [s_raw mk app]. rewrite <- app_assoc. cbn [app].
+    apply (spec_step_label (n0 :: a) (c :: R)). cbn [is_name]. rewrite H1. cbn [forallb] in Hall.
     apply andb_true_iff in Hall. apply Hall.
   - reflexivity.
   - (* symbol *)
-    subst rest. apply symbol_local; assumption.
+    subst rest. eapply symbol_ctx; eassumption.
+Qed.
+
+Theorem step_local s t c r0 b :
+  spec_step s = Some (t, c :: r0) -> spec_step (s ++ b) = Some (t, (c :: r0) ++ b).
+Proof.
+  intros H. destruct (spec_step_split _ _ _ H) as (Hsplit & _).
+  rewrite Hsplit at 1. rewrite <- app_assoc. cbn [app]. eapply step_ctx, H.
 Qed.
 
 (* ---------- a token that reaches the end of the text ---------- *)
@@ -275,20 +396,6 @@ Lemma all_last (p : Z -> bool) l d : l <> [] -> forallb p l = true -> p (last l 
 Proof.
   intros Hne Hall. destruct (forallb_last p l) as (q & c & -> & Hc); [destruct l; [congruence | reflexivity] | exact Hall|].
   rewrite last_last. exact Hc.
-Qed.
-
-Lemma unescape_raw_end q : forall n s v raw rest, (length s <= n)%nat ->
-  unescape_until q s = Some (v, raw, rest) -> exists raw', raw = raw' ++ [q].
-Proof.
-  induction n as [|n IH]; intros s v raw rest Hl H.
-  - destruct s; [discriminate | cbn in Hl; lia].
-  - destruct s as [|c r]; [discriminate|]. cbn [unescape_until] in H. cbn [length] in Hl.
-    destruct (c =? q) eqn:Ecq.
-    { apply Z.eqb_eq in Ecq. subst c. injection H as _ <- _. exists []. reflexivity. }
-    break_match H.
-    all: apply ucons_inv in H; destruct H as (v' & raw' & H & _ & ->).
-    all: apply IH in H; [|cbn [length] in *; lia].
-    all: destruct H as (raw'' & ->); eexists; rewrite app_assoc; reflexivity.
 Qed.
 
 Lemma num_run_all h : forall s e a b, num_run h e s = (a, b) ->
@@ -493,4 +600,95 @@ Theorem sig_views_final_lf a ta : sig_views a = Some ta -> sig_views (a ++ [10])
 Proof.
   unfold sig_views. intros Ha. destruct (spec_toks a) as [ta'|] eqn:Ea; [|discriminate]. injection Ha as <-.
   rewrite (spec_toks_final_lf _ _ Ea), filter_app. cbn. rewrite app_nil_r. reflexivity.
+Qed.
+
+(* ---------- C06's echo predicate implies that the echoed text re-lexes to the same token views ---------- *)
+From PV Require Import Instances.HoldsC06.
+
+Lemma quoted_shape s t rest : spec_step s = Some (t, rest) -> is_quoted t = true ->
+  exists q raw v, (q = 34 \/ q = 39) /\ t = mk_stok SString (q :: raw) v 0 1 (-1) 0 0.
+Proof.
+  intros H Q. pose proof (spec_step_shape _ _ _ H) as Sh. destruct Sh; try discriminate Q.
+  - (* long string: level >= 0 *) exfalso. destruct (long_open_spec _ _ _ _ H0) as (k & Hk & _).
+    unfold is_quoted in Q. cbn [s_kind s_long] in Q. lia.
+  - exists q, raw, v. split; [assumption | reflexivity].
+  - exfalso. unfold spec_number in H1. destruct (num_run _ _ _) as [run rs]. destruct (spec_numeral run) as [[n d]|]; [|discriminate].
+    injection H1 as <- _. discriminate Q.
+  - destruct (mem_bytes a spec_keywords); discriminate Q.
+  - exfalso. destruct (spec_symbol_inv _ _ _ H0) as (x & _ & -> & _). discriminate Q.
+Qed.
+
+Lemma walk_head t ts c r0 rest2 o k :
+  spec_step (c :: r0) = Some (t, rest2) -> walk (t :: ts) o k = None -> exists R, o = c :: R.
+Proof.
+  intros Hs Hw. destruct (spec_step_split _ _ _ Hs) as (Hsplit & Hne).
+  destruct (s_raw t) as [|x raw'] eqn:Er; [congruence|]. cbn [app] in Hsplit. injection Hsplit as <- _.
+  cbn [walk] in Hw. destruct (is_quoted t).
+  - destruct o as [|q o1]; [discriminate|]. rewrite Er in Hw. cbn [firstn] in Hw.
+    destruct (zlist_eqb [q] [c]) eqn:E; [|discriminate]. apply zlist_eqb_eq in E. injection E as ->. eexists; reflexivity.
+  - rewrite Er in Hw. destruct (strip_prefix (c :: raw') o) as [o'|] eqn:E; [|discriminate].
+    apply strip_prefix_split in E. subst o. eexists; reflexivity.
+Qed.
+
+Theorem walk_chain src ss : chain src ss -> forall out k, walk ss out k = None ->
+  exists ss2, chain out ss2 /\ map tview ss2 = map tview ss.
+Proof.
+  induction 1 as [|s t rest ts Hs Hc IH]; intros out k Hw.
+  - cbn in Hw. destruct out; [|discriminate]. exists []. split; [constructor | reflexivity].
+  - cbn [walk] in Hw. destruct (is_quoted t) eqn:Q.
+    + destruct (quoted_shape _ _ _ Hs Q) as (q0 & raw0 & v0 & Hq0 & ->). cbn [s_raw s_text firstn] in Hw.
+      destruct out as [|q o1]; [discriminate|].
+      destruct (zlist_eqb [q] [q0]) eqn:Eq; [|discriminate]. apply zlist_eqb_eq in Eq. injection Eq as ->.
+      destruct (unescape_until q0 o1) as [[[v raw2] o2]|] eqn:Eu; [|discriminate].
+      destruct (zlist_eqb v v0) eqn:Ev; [|discriminate]. apply zlist_eqb_eq in Ev. subst v.
+      destruct (IH _ _ Hw) as (ss2 & Hc2 & Hv2).
+      exists (mk_stok SString (q0 :: raw2) v0 0 1 (-1) 0 0 :: ss2). split.
+      * econstructor; [|exact Hc2].
+        destruct Hq0 as [-> | ->]; unfold spec_step; cbn -[unescape_until]; rewrite Eu; reflexivity.
+      * cbn [map]. rewrite Hv2. reflexivity.
+    + destruct (strip_prefix (s_raw t) out) as [o|] eqn:Es; [|discriminate]. apply strip_prefix_split in Es. subst out.
+      destruct (IH _ _ Hw) as (ss2 & Hc2 & Hv2). exists (t :: ss2). split; [|cbn [map]; rewrite Hv2; reflexivity].
+      econstructor; [|exact Hc2]. destruct (spec_step_split _ _ _ Hs) as (Hsplit & _).
+      destruct rest as [|c r0].
+      * pose proof (chain_nil_inv _ Hc) as Ets. subst ts. cbn in Hw. destruct o; [|discriminate].
+        rewrite app_nil_r in *. rewrite <- Hsplit. exact Hs.
+      * inversion Hc as [|s' t2 rest2 ts' Hs2 Hc' E1 E2]; subst.
+        destruct (walk_head _ _ _ _ _ _ _ Hs2 Hw) as (R & ->). eapply step_ctx, Hs.
+Qed.
+
+Lemma walk_unpos ss : forall out k, walk (map unpos ss) out k = walk ss out k.
+Proof.
+  induction ss as [|s ss IH]; intros out k; [reflexivity|]. cbn [map walk].
+  change (is_quoted (unpos s)) with (is_quoted s). change (s_raw (unpos s)) with (s_raw s).
+  change (s_text (unpos s)) with (s_text s).
+  destruct (is_quoted s).
+  - destruct out as [|q o1]; [reflexivity|]. destruct (zlist_eqb [q] (firstn 1 (s_raw s))); [|reflexivity].
+    destruct (unescape_until q o1) as [[[v r] o2]|]; [|reflexivity]. destruct (zlist_eqb v (s_text s)); [apply IH | reflexivity].
+  - destruct (strip_prefix (s_raw s) out); [apply IH | reflexivity].
+Qed.
+
+Lemma tview_kind a b : tview a = tview b -> is_trivia a = is_trivia b.
+Proof. unfold tview, is_trivia. intros H. injection H as Hk _ _ _ _. destruct (s_kind a), (s_kind b); cbn in Hk; try discriminate; reflexivity. Qed.
+
+Lemma views_filter : forall a b, map tview a = map tview b ->
+  map tview (filter (fun t => negb (is_trivia t)) a) = map tview (filter (fun t => negb (is_trivia t)) b).
+Proof.
+  induction a as [|x a IH]; intros [|y b] H; try discriminate; [reflexivity|]. cbn [map] in H.
+  assert (Hxy : tview x = tview y) by (apply (f_equal (hd (tview x))) in H; exact H).
+  assert (Hab : map tview a = map tview b) by (apply (f_equal (@tl _)) in H; exact H).
+  cbn [filter]. rewrite (tview_kind _ _ Hxy). destruct (negb (is_trivia y)); [cbn [map]; rewrite Hxy|]; rewrite (IH _ Hab); reflexivity.
+Qed.
+
+(* if C06's predicate holds of (source, echoed text) and the echoed text has no lone carriage return, then
+   the echoed text is in the dialect whenever the source is, with the same significant token views *)
+Theorem holds_C06_sig_views src out t :
+  holds_C06 src out = true -> crlf_only out = true -> sig_views src = Some t -> sig_views out = Some t.
+Proof.
+  unfold holds_C06, diff_C06, sig_views. intros Hh Hcr Hs.
+  destruct (spec_toks src) as [ss|] eqn:Es; [|discriminate]. injection Hs as <-.
+  destruct (spec_toks_chain _ _ Es) as (_ & Hc). unfold spec_toks in Es.
+  destruct (spec_lex src) as [ss0|]; [|discriminate]. injection Es as <-.
+  destruct (walk ss0 out 0) eqn:Ew; [discriminate|]. rewrite <- walk_unpos in Ew.
+  destruct (walk_chain _ _ Hc _ _ Ew) as (ss2 & Hc2 & Hv).
+  rewrite (chain_spec_toks _ _ Hcr Hc2). f_equal. apply views_filter, Hv.
 Qed.
